@@ -261,10 +261,13 @@ orc_vector_extend (OrcVector *vector)
 void
 orc_vector_append (OrcVector *vector, void *item)
 {
-  if (vector->n_items == vector->n_items_alloc) {
+  /* keep room for a NULL terminator: the arrays handed out by the parser
+   * are walked until NULL (orc_parse_error_freev) */
+  if (vector->n_items + 1 >= vector->n_items_alloc) {
     orc_vector_extend (vector);
   }
   vector->items[vector->n_items] = item;
   vector->n_items++;
+  vector->items[vector->n_items] = NULL;
 }
 
